@@ -327,6 +327,10 @@ def c06_jobs(tier):
         des("objectqueue-lost-race", "order", 2, dl, procs=3, prios="0,0,0", budget=8, oq=1,
             ops="oqput0,oqget,hold0,hold1,hold2,int1,exit",
             script0="hold2,oqput0,oqget,hold2,oqput0,hold2", script1="oqget,hold1", script2="hold1,oqget,hold1"),
+        # 7-17 waiters (the waiting list grows once or twice) x interrupt / stop / priority change / timeout / cancel of the
+        # first, last or middle waiter: service order by priority, then arrival
+        dict(name="waiters-7-17", harness="c10_ramps", opts=dict(mode="guardq", prop="c06"), bound_min=0, bound_max=0,
+             deadline=300, crash_is_violation=True, recycle=200, run_timeout=60),
         des("ramp9", "order", 1, dl, procs=6, prios="0,1,2,1,0,2", budget=2, res=1,
             ops="racq0,rrel0,hold1,hold2,prio0.2,prio4.1", script="racq0,hold1"),
     ]
